@@ -317,15 +317,18 @@ def run_harness(h, tier, playback=False, keep=False):
 
 
 def parse_playback(out):
-    """concrete values printed by --concrete-playback=print -> list of byte lists (first test)"""
-    m = re.search(r"let concrete_vals: Vec<Vec<u8>> = vec!\[(.*?)\];\s*kani::concrete_playback_run", out, re.S)
-    if not m:
-        return None
-    vals = []
-    for vm in re.finditer(r"vec!\[([0-9, ]*)\]", m.group(1)):
-        s = vm.group(1).strip()
-        vals.append([int(x) for x in s.split(",") if x.strip()] if s else [])
-    return vals
+    """concrete values printed by --concrete-playback=print -> list of tests, each a list of byte
+    lists. Kani prints one test per failed check AND per satisfied cover; all are returned and the
+    caller replays them in turn."""
+    tests = []
+    for m in re.finditer(r"let concrete_vals: Vec<Vec<u8>> = vec!\[(.*?)\];\s*kani::concrete_playback_run", out, re.S):
+        vals = []
+        for vm in re.finditer(r"vec!\[([0-9, ]*)\]", m.group(1)):
+            s = vm.group(1).strip()
+            vals.append([int(x) for x in s.split(",") if x.strip()] if s else [])
+        if vals not in tests:
+            tests.append(vals)
+    return tests or None
 
 
 # ---------------------------------------------------------------------------------------------
@@ -495,12 +498,19 @@ def main():
         if not vals:
             inconclusive.append((r, "failed, but no concrete playback values could be extracted"))
             continue
-        rep, txt = replay_native(h, vals)
-        rep_rel = None
-        if rep is False:
-            rep_rel, txt2 = replay_native(h, vals, profile_release=True)
-            if rep_rel:
-                txt = txt2
+        rep, rep_rel, txt, used = None, None, "", None
+        for one in vals[:8]:
+            rep, txt = replay_native(h, one)
+            rep_rel = None
+            if rep is False:
+                rep_rel, txt2 = replay_native(h, one, profile_release=True)
+                if rep_rel:
+                    txt = txt2
+            used = one
+            if rep or rep_rel or rep is None:
+                break
+        vals = used
+        r["playback_values"] = vals
         r["replay"] = {"dev": rep, "release": rep_rel}
         rp = os.path.join(BUILD, "replays", f"{prop}_{r['name']}.json")
         os.makedirs(os.path.dirname(rp), exist_ok=True)
